@@ -176,6 +176,29 @@ func Fresh(prefix string, s *Sort) *Term {
 	freshCounter[prefix]++
 	return Var(fmt.Sprintf("%s!%d", prefix, freshCounter[prefix]), s)
 }
+// Det returns a symbol whose name is determined by the identities of the given terms: evaluating the same
+// definitional construct twice (code path and specification) yields the same symbol.
+func Det(prefix string, s *Sort, ids ...*Term) *Term {
+	return Var(DetName(prefix, ids...), s)
+}
+
+func DetName(prefix string, ids ...*Term) string {
+	var sb strings.Builder
+	sb.WriteString(prefix)
+	sb.WriteString("@")
+	for i, t := range ids {
+		if i > 0 {
+			sb.WriteByte('_')
+		}
+		if t == nil {
+			sb.WriteString("x")
+		} else {
+			fmt.Fprintf(&sb, "%d", t.id)
+		}
+	}
+	return sb.String()
+}
+
 func FreshName(prefix string) string {
 	freshCounter[prefix]++
 	return fmt.Sprintf("%s!%d", prefix, freshCounter[prefix])
